@@ -291,7 +291,7 @@ PROPS = {
         "assumptions": [],
     },
     "C15": {
-        "required_theorems": ["c15_replace_consistent", "c15_preserve_sends_same", "c15_marker_top_only", "c15_blank_key_restored", "c15_edge_points_kept",
+        "required_theorems": ["c15_replace_consistent", "c15_preserve_sends_same", "c15_marker_top_only", "c15_blank_key_restored", "c15_edge_points_kept", "c15_import_stored", "c15_children_order",
                               "c15_exports_live_only", "gen_export_pinned", "gen_export_constants_pinned"],
         "n": {"quick": 500, "thorough": 4000},
         "thorough_seeds": 3,
@@ -306,8 +306,10 @@ PROPS = {
                     "github.com/google/uuid: new ids are pairwise different and not blank (hypotheses hinj, hne of c15_replace_consistent)", "modernc SQLite as in C05", "embedded nats-server"],
         "modelled": ["client/node.go ExportNodes/exportNodesHelper, ImportNodes, checkIDs, ReplaceIDs, SendNode modelled by hand on the store model (Siot/Model/Export.lean); a tree is a pre-order list with depths; shape re-extracted every run (gen_export_pinned)",
                      "import under 'root' (replacing the root node) is not modelled and not generated", "time stamps (not exported) and origins are outside the comparison"],
-        "assumptions": [],
-        "partial": "the theorems cover the tree transformations (id replacement, check, marker, noise reduction, liveness of exported nodes); that sending the prepared nodes to the store and reading them back yields the same tree is established by the correspondence run (model = store model of C01/C05), not by a theorem",
+        "assumptions": ["c15_import_stored: the nodes are in the form exportNodesHelper writes (stored rows, key '0' blanked), unknown to the target store, no mirror inside the tree, parent not 'root'/'none'"],
+        "partial": "proved: the tree transformations (id replacement, check, marker, noise reduction, liveness of exported nodes) and, on the store model, that sending the prepared nodes of a tree without mirrors "
+                   "leaves exactly one new edge per node in file order and that the record exportNodesHelper reads back for every imported node is the node of the file, deletion mark included (c15_import_stored, c15_children_order). "
+                   "Not stated as one theorem: that the recursive traversal of those records and child lists re-assembles the same pre-order list, and trees that contain a mirror; both are covered by the correspondence run. The YAML text is not modelled.",
     },
     "C02": {
         "required_theorems": ["c02_no_write_lost", "c02_points_converge", "c02_exchange_converges_on_stores", "c02_equal_hash_is_skipped", "gen_sync_pinned"],
